@@ -1,4 +1,5 @@
 import Rp2.Proofs.Yearly
+import Rp2.Proofs.YearlyModel
 /-! # C06 — yearly summary equals the sum of its detail fractions -/
 namespace Rp2.C06
 open Rp2
@@ -8,4 +9,15 @@ theorem lines_are_sums {κ : Type} [DecidableEq κ] {α : Type} (add : α → α
     ((group add zero fs).map (·.1)).Nodup ∧
     (∀ k, k ∈ (group add zero fs).map (·.1) ↔ k ∈ fs.map (·.1)) ∧
     (∀ k, k ∈ fs.map (·.1) → lookup k (group add zero fs) = some (sumKey add k zero fs)) := group_spec add zero fs
+/-- **on the executable model** (`yearly` of `Model/Pipeline.lean`): one line per key that has fractions, no other line, each
+    line the in-order decimal sums of its fractions; the key's year is that of the taxable event -/
+theorem model_lines_are_sums (period : Int) (fs : List Fraction) :
+    ((yearly period fs).map (·.1)).Nodup ∧
+    (∀ k, k ∈ (yearly period fs).map (·.1) ↔ ∃ f ∈ fs, yearKey period f = k) ∧
+    (∀ k, (∃ f ∈ fs, yearKey period f = k) →
+      lookup k (yearly period fs) = some (((fs.filter (fun f => yearKey period f = k)).map yearVal).foldl YSums.add YSums.zero)) := yearly_spec period fs
+theorem key_uses_event_year (period : Int) (f : Fraction) : (yearKey period f).year = f.ev.ts.year := rfl
+/-- under `LocalDatesMonotone` the fractions summarised for a to-date are exactly those dated up to it -/
+theorem to_date_cut_is_filter {α} (day : α → Int) (t : Int) (l : List α) (hmono : l.Pairwise (fun a b => day a ≤ day b)) :
+    cutAt day (some t) l = l.filter (fun x => decide (day x ≤ t)) := cutAt_eq_filter day t l hmono
 end Rp2.C06
